@@ -201,10 +201,13 @@ def hygiene():
 
 
 def load_known():
-    try:
-        return json.load(open(os.path.join(VERIF, 'known_findings.json')))
-    except FileNotFoundError:
-        return []
+    """known_findings/*.json (one list per property; never written at run time)"""
+    res = []
+    d = os.path.join(VERIF, 'known_findings')
+    for f in sorted(os.listdir(d)) if os.path.isdir(d) else []:
+        if f.endswith('.json'):
+            res.extend(json.load(open(os.path.join(d, f))))
+    return res
 
 
 def write_replay(prop, seed, idx, obj):
